@@ -22,6 +22,8 @@ Violation keys (stable, one class each):
   parse:<pattern>       other wrong dict            build:<pattern>     wrong built name
   rebuild:<pattern>     build(parse(s)) != s        helper:<pattern> / async:<pattern>  helper missing / differs
   visible:<svc>:<placement>   a required helper is not offered   trace:<key>  ResourcePathTrace rejected the steps
+  ads:<class>:<pattern>       the same classes observed on the client emitted by the Ads template set
+                              (python-gapic-templates=ads-templates, old-naming; sync client only)
 """
 import json
 import os
@@ -37,6 +39,10 @@ MODULE = 'acme.rp_v1'
 VPKG = 'acme.vis.v1'
 VMODULE = 'acme.vis_v1'
 PER_API = 30
+OPTS = dict(transport=['grpc'], snippets=False)
+# the alternative template set (no asyncio client there; old naming: module acme.rp.v1)
+ADS_OPTS = dict(transport=['grpc'], snippets=False, templates='ads-templates', old_naming=True)
+ADS_MODULE = 'acme.rp.v1'
 SEPCHARS = '/-_~.'
 # concrete characters the abstract letters a / b may stand for (never a delimiter; no line break: see assumptions)
 POOL = list('abxyzAQ %:@+=!$^()[]{}|\\?*#&\',;<>"') + ['é', '日']
@@ -83,6 +89,17 @@ def pattern_events(pattern):
     else:
         ev.append(dict(ev='close', tail='multi' if toks[-1]['k'] == 'multi' else 'plain', coll=[], tokens=toks))
     return ev
+
+
+def pattern_class(pattern):
+    """(number of variables, tail, leading collection id?, separators used) - selects inputs, decides nothing."""
+    if pattern == '*':
+        return (0, 'wild', False, frozenset())
+    toks = tokens(pattern)
+    nv = sum(1 for t in toks if t['k'] != 'lit')
+    tail = 'multi' if toks[-1]['k'] == 'multi' else 'single' if toks[-1]['k'] == 'lit' else 'plain'
+    inner = [t for j, t in enumerate(toks) if t['k'] == 'lit' and 0 < j < len(toks) - 1]
+    return (nv, tail, toks[0]['k'] == 'lit', frozenset(t['s'][0] for t in inner))
 
 
 def call_events(case, o):
@@ -159,7 +176,7 @@ def _run_api(job):
     """worker: real generator -> emitted tree -> driver in a fresh interpreter.  Returns (ok, result, err)."""
     try:
         with gen.scratch() as work:
-            req, res = gen.generate_api(job['api'], dict(transport=['grpc'], snippets=False), work)
+            req, res = gen.generate_api(job['api'], dict(job.get('opts') or OPTS), work)
             root = gen.materialise(res, os.path.join(work, 'out'))
             return gen.run_driver('harness.drivers.respath', root, job['payload'], timeout=900)
     except Exception as e:  # generation failed: machinery, reported by the caller
@@ -241,7 +258,7 @@ def classify(c, o, T):
     if not all(o['has_sync']):
         return [('helper', f'client lacks {o["helper"]}_path / parse_{o["helper"]}_path (has {o["has_sync"]})')]
     d = []
-    if not all(o['has_async']):
+    if not c.get('_ads') and not all(o['has_async']):
         d.append(('async', f'asyncio client lacks {o["helper"]}_path / parse_{o["helper"]}_path (has {o["has_async"]})'))
     exp_built = T(c['built'])
     if o['built_err'] or o['built'] != exp_built:
@@ -251,7 +268,7 @@ def classify(c, o, T):
         d.append(('parse', f'parse_{o["helper"]}_path({o["parse_in"]!r}) raised {o["parse_err"]}'))
         return d
     got = dict((k, v) for k, v in o['parsed'])
-    if all(o['has_async']) and (o['a_err'] or o['a_built'] != o['built'] or o['a_parsed'] != o['parsed']):
+    if not c.get('_ads') and all(o['has_async']) and (o['a_err'] or o['a_built'] != o['built'] or o['a_parsed'] != o['parsed']):
         d.append(('async', f'asyncio client helpers disagree with the sync ones: {o["a_built"]!r} {o["a_parsed"]} {o["a_err"]}'))
     if not c['inq']:
         return d          # outside the property's quantifier: the dict is not compared
@@ -332,13 +349,17 @@ def replay(chk, path):
     c['_args'] = [T(v) for v in c['args']]; c['_kwargs'] = dict(zip(c['names'], c['_args']))
     helper = 'common_' + c['common'] if c['common'] else 'r0'
     api = path_api([] if c['common'] else [(0, c['pattern'])])
+    ads = bool(c.get('_ads'))
     res = [dict(service='Rp', helper=helper, calls=[dict(id=0, kind=c['kind'], args=c['_kwargs'], str=T(c['str']))])]
-    ok, out, err = _run_api(dict(api=api, payload=dict(module=MODULE, services=[dict(name='Rp')], inventory=False, resources=res)))
+    ok, out, err = _run_api(dict(api=api, opts=ADS_OPTS if ads else OPTS,
+                                 payload=dict(module=ADS_MODULE if ads else MODULE, services=[dict(name='Rp')], inventory=False,
+                                              sync_only=ads, resources=res)))
     if not ok:
         raise core.MachineryError(err)
     chk.case(key)
     for cls, text in classify(c, out['obs'][0], T):
-        chk.violation(f'{cls}:{c["pattern"]}', text, dict(case={x: c[x] for x in c if x != '_T'}, observed=out['obs'][0]))
+        chk.violation(('ads:' if ads else '') + f'{cls}:{c["pattern"]}', text,
+                      dict(case={x: c[x] for x in c if x != '_T'}, observed=out['obs'][0]))
 
 
 def size_key(c):
@@ -397,39 +418,59 @@ def main(chk, args):
     # ---- 3. concretise: ~30 patterns per API, real generator, emitted helpers ---------------------------------
     jobs, meta = [], {}
     cid = 0
-    common_calls = {}
     plist = [p for p in patterns if not bypat[p][0]['common']]
-    for a in range(0, len(plist), PER_API):
-        chunk = list(enumerate(plist[a:a + PER_API]))
-        la, lb = rnd.sample(POOL, 2) if a else ('a', 'b')
-        cmap = {'a': la, 'b': lb}
-        resources = []
-        for i, p in chunk:
-            calls = []
-            for c in bypat[p]:
-                T = (lambda s, la=la, lb=lb: ''.join(la if ch == 'a' else lb if ch == 'b' else ch for ch in s))
-                c['_T'], c['_cmap'] = T, cmap
-                c['_args'] = [T(v) for v in c['args']]
-                c['_kwargs'] = dict(zip(c['names'], c['_args']))
-                meta[cid] = c
-                calls.append(dict(id=cid, kind=c['kind'], args=c['_kwargs'], str=T(c['str'])))
-                cid += 1
-            resources.append(dict(service='Rp', helper=f'r{i}', calls=calls))
-        if a == 0:   # the five common resources ride on the first API (every service offers them)
-            for p in patterns:
-                c0 = bypat[p][0]
-                if not c0['common']:
-                    continue
+    commons = [p for p in patterns if bypat[p][0]['common']]
+
+    def pack(plist, ads):
+        """~30 patterns per API; the five common resources ride on the first API of each template set."""
+        nonlocal cid
+        for a in range(0, len(plist), PER_API):
+            chunk = list(enumerate(plist[a:a + PER_API]))
+            la, lb = rnd.sample(POOL, 2) if a else ('a', 'b')
+            resources = []
+            for i, p in chunk + ([(None, p) for p in commons] if a == 0 else []):
+                if i is None:
+                    la_, lb_ = 'a', 'b'      # literals of the common patterns contain the letters a and b
+                else:
+                    la_, lb_ = la, lb
                 calls = []
-                for c in bypat[p]:
-                    c['_T'], c['_cmap'] = (lambda s: s), {'a': 'a', 'b': 'b'}
-                    c['_args'] = list(c['args']); c['_kwargs'] = dict(zip(c['names'], c['args']))
+                for c0 in bypat[p]:
+                    c = dict(c0)
+                    c['_T'] = (lambda s, la=la_, lb=lb_: ''.join(la if ch == 'a' else lb if ch == 'b' else ch for ch in s))
+                    c['_cmap'] = {'a': la_, 'b': lb_}
+                    c['_ads'] = ads
+                    c['_args'] = [c['_T'](v) for v in c['args']]
+                    c['_kwargs'] = dict(zip(c['names'], c['_args']))
                     meta[cid] = c
-                    calls.append(dict(id=cid, kind=c['kind'], args=c['_kwargs'], str=c['str']))
+                    calls.append(dict(id=cid, kind=c['kind'], args=c['_kwargs'], str=c['_T'](c['str'])))
                     cid += 1
-                resources.append(dict(service='Rp', helper='common_' + c0['common'], calls=calls))
-        jobs.append(dict(api=path_api(chunk), payload=dict(module=MODULE, services=[dict(name='Rp')], inventory=False,
-                                                           resources=resources)))
+                resources.append(dict(service='Rp', helper=f'r{i}' if i is not None else 'common_' + bypat[p][0]['common'],
+                                      calls=calls))
+            jobs.append(dict(api=path_api(chunk), opts=ADS_OPTS if ads else OPTS,
+                             payload=dict(module=ADS_MODULE if ads else MODULE, services=[dict(name='Rp')], inventory=False,
+                                          sync_only=ads, resources=resources)))
+
+    pack(plist, False)
+    # a share of the patterns also goes through the Ads template set (sync client only): one pattern of every class
+    # (number of variables, tail, leading collection id, set of separators used) - all classes in thorough, a covering
+    # sample in quick
+    classes = {}
+    for p in plist:
+        classes.setdefault(pattern_class(p), p)
+    if quick:
+        chosen, seen_nt, seen_st = [], set(), set()
+        for k in sorted(classes, key=lambda k: (k[0], k[1], k[2], sorted(k[3]))):
+            nt = (k[0], k[1]); st = {(sp, k[1]) for sp in k[3]}
+            if nt not in seen_nt or not st <= seen_st:
+                chosen.append(k); seen_nt.add(nt); seen_st |= st
+        others = sorted((k for k in classes if k not in chosen), key=lambda k: (k[0], k[1], k[2], sorted(k[3])))
+        chosen += rnd.sample(others, max(0, min(len(others), 2 * PER_API - len(chosen))))
+    else:
+        chosen = list(classes)
+    ads_plist = sorted((classes[k] for k in chosen), key=lambda p: (bypat[p][0]['nvars'], len(p), p))
+    n_std = len(jobs)
+    pack(ads_plist, True)
+    chk.extra['ads_patterns'] = len(ads_plist); chk.extra['ads_apis'] = len(jobs) - n_std
     # VisibleResources shapes
     vcases.sort(key=lambda c: json.dumps(c['place'], sort_keys=True))
     if quick:     # every placement once: 7 shapes with two different placements each
@@ -461,16 +502,16 @@ def main(chk, args):
     outside = 0
     for i in sorted(meta):
         c, o = meta[i], obs[i]
-        chk.case((c['pattern'], c['_args'], o['parse_in'] if c['kind'] == 'foreign' else ''),
+        chk.case((c['pattern'], c['_args'], o['parse_in'] if c['kind'] == 'foreign' else '', 'ads' if c['_ads'] else ''),
                  nontrivial=c['nvars'] >= 1 and (bool(c['parsed']) or c['kind'] == 'foreign'))
         outside += 0 if c['inq'] else 1
         for cls, text in classify(c, o, c['_T']):
-            bad.setdefault(f'{cls}:{c["pattern"]}', []).append((c, o, text))
-            if cls not in ('helper', 'async'):      # the recorded steps themselves disagree with the specification
+            bad.setdefault(('ads:' if c['_ads'] else '') + f'{cls}:{c["pattern"]}', []).append((c, o, ('[Ads templates] ' if c['_ads'] else '') + text))
+            if cls not in ('helper', 'async'):         # the recorded steps themselves disagree with the specification
                 flagged.add(i)
     per_class = {}
     for key in bad:
-        per_class.setdefault(key.split(':', 1)[0], []).append(key)
+        per_class.setdefault(key.rsplit(':', 1)[0], []).append(key)      # patterns contain no ':'
     reported = {}
     for cls, keys in sorted(per_class.items()):
         keys.sort(key=lambda k: size_key(min((x[0] for x in bad[k]), key=size_key)))
@@ -539,7 +580,7 @@ def main(chk, args):
             p, fl = tkeys[ix[j]]
             nrej += 1
             if fl >= 0:
-                ks = [k for k in bad if not k.startswith(('helper:', 'async:')) and any(x[0] is meta[fl] for x in bad[k])]
+                ks = [k for k in bad if not k.startswith(('helper:', 'async:', 'ads:helper:')) and any(x[0] is meta[fl] for x in bad[k])]
                 key = 'trace:' + (ks[0] if ks else f'flagged:{p}')
             else:
                 key = f'trace:unflagged:{p}'
@@ -576,6 +617,8 @@ def main(chk, args):
         'a string that matches the pattern only with a value containing one of its delimiters (e.g. c0/a/b for c0/{v0}) '
         'is outside the quantifier: the returned dict is not compared for such strings',
         'helpers are required for visible resources; extra helpers are not a violation',
+        'one pattern of every class (variables x tail x leading id x separators used; all classes in thorough, a covering '
+        'sample in quick) and the common resources are also run through the Ads template set, whose client has no asyncio twin',
         'patterns follow the grammar of the property: optional leading collection id, variables separated by /id/ or by one '
         'of - _ ~ ., optional singleton suffix or trailing {v=**}, the wildcard *, and the five common resources']
     chk.extra.update(patterns=len(patterns), patterns_by_nvars=nv, apis_generated=len(jobs) + len(vjobs), helper_rounds=len(meta),
